@@ -102,10 +102,18 @@ def _r10(ctx, pkg):
                           expected="replace(prefix, '', 1) / slicing / removeprefix", found=ast.unparse(c)[:80])
     fn = pkg.cls("KROMEReaction").methods.get("preprocessing")
     st = [a for a in ast.walk(fn) if isinstance(a, ast.Assign) and any(isinstance(t, ast.Attribute) and t.attr == "reacformat" for t in a.targets)] if fn else []
-    ok = len(st) == 1 and re.fullmatch(r"\w+\.replace\('@format:', ''(, 1)?\)(\.strip\(\))?|\w+\[len\('@format:'\):\](\.strip\(\))?|\w+\.removeprefix\('@format:'\)(\.strip\(\))?",
-                                   ast.unparse(st[0].value)) is not None
-    ctx.check(ok, "R10", "KROME:@format: column list", ("naunet/reactions/kromereaction.py", st[0].lineno if st else 0),
-              "the column list is the directive line without the literal prefix `@format:`", expected="line.replace('@format:', '')", found=ast.unparse(st[0].value)[:80] if st else "no store")
+    KF = "naunet/reactions/kromereaction.py"
+    if len(st) != 1:
+        ctx.unrec("R10", "KROME:@format: column list", (KF, fn.lineno if fn else 0), f"expected one store into reacformat in preprocessing, found {len(st)}")
+    else:
+        src = ast.unparse(st[0].value)
+        ok = re.fullmatch(r"\w+\.replace\('@format:', ''(, 1)?\)(\.strip\(\))?|\w+\[len\('@format:'\):\](\.strip\(\))?|\w+\[8:\](\.strip\(\))?|\w+\.removeprefix\('@format:'\)(\.strip\(\))?", src) is not None
+        wrong = re.search(r"\.[lr]?strip\('[^']*\w\w[^']*'\)|\[\s*(?!8:)\d+:\]", src) is not None     # a word used as a character set / another offset
+        if ok or wrong:
+            ctx.check(ok, "R10", "KROME:@format: column list", (KF, st[0].lineno),
+                      "the column list is the directive line without the literal prefix `@format:`", expected="line.replace('@format:', '')", found=src[:80])
+        else:
+            ctx.unrec("R10", "KROME:@format: column list", (KF, st[0].lineno), f"cannot see that the column list is the directive line minus `@format:`: {src[:80]}")
     ctx.floor("R10", "strip calls with a literal argument", n, 0)
 
 
@@ -129,10 +137,17 @@ def _r1(ctx, pkg):
         # or the argument itself is already stripped
         if arg[0] == "meth" and arg[2] == "strip" and any(simp(g) == arg and p for g, p in f.guards):
             stripped = True
-        ctx.check(stripped, "R1", "_reaction_factory:blank-line test", (NET, f.line),
-                  "a reaction is created only when the pre-processed line is non-blank after strip()" if stripped else
-                  "the emptiness test is made on the raw line: a line holding only blanks / the terminator is truthy and becomes a reaction",
-                  expected="if react_string and react_string.strip():", found="; ".join(show(simp(g))[:100] for g, _ in f.guards))
+        # the line is tested through something this rule cannot read (a helper, a regular expression): not a verdict
+        base_ = arg[1] if arg[0] == "meth" and arg[2] == "strip" else arg
+        hidden = [g for g, pol in f.guards for x in walk(simp(g)) if isinstance(x, tuple) and x and x[0] in ("call", "meth") and not (x[0] == "meth" and x[2] in ("strip", "preprocessing"))
+                  and any(y == base_ for a_ in (x[2] if x[0] == "call" else x[3]) for y in walk(a_))]
+        if not stripped and hidden:
+            ctx.unrec("R1", "_reaction_factory:blank-line test", (NET, f.line), "the emptiness of the pre-processed line is tested through " + show(simp(hidden[0]))[:80])
+        else:
+            ctx.check(stripped, "R1", "_reaction_factory:blank-line test", (NET, f.line),
+                      "a reaction is created only when the pre-processed line is non-blank after strip()" if stripped else
+                      "the emptiness test is made on the raw line: a line holding only blanks / the terminator is truthy and becomes a reaction",
+                      expected="if react_string and react_string.strip():", found="; ".join(show(simp(g))[:100] for g, _ in f.guards))
         pre = any(isinstance(x, tuple) and len(x) >= 3 and x[0] == "meth" and x[2] == "preprocessing" for x in walk(arg))
         ctx.check(pre, "R1", "_reaction_factory:preprocessing", (NET, f.line), "the line handed to the parser is the class's preprocessing of the raw line")
     # base preprocessing is the identity
@@ -382,7 +397,7 @@ def _split_formats(ctx, pkg):
         for attr in ("reactants", "products"):
             lo, hi = lay[attr]
             st = [f for f in fl.facts if f.kind == "attrstore" and f.target == attr]
-            ok = False
+            ok = None
             found = ""
             if st:
                 m = as_map(simp(st[-1].value))
@@ -390,12 +405,15 @@ def _split_formats(ctx, pkg):
                     base = m[2]
                     found = show(base)[-60:]
                     b = match(("sub", ("item", V("s"), V("star")), ("slice", V("lo"), V("hi"), ("const", None))), base)
-                    if b and isinstance(b["star"], tuple) and b["star"][0] == "star":
-                        l = b["lo"][1] if b["lo"][0] == "const" and b["lo"][1] is not None else 0
-                        h = b["hi"][1] if b["hi"][0] == "const" else None
+                    if b and isinstance(b["star"], tuple) and b["star"][0] == "star" and b["lo"][0] == "const" and b["hi"][0] == "const":
+                        l = b["lo"][1] if b["lo"][1] is not None else 0
+                        h = b["hi"][1]
                         ok = (l + base0, (h or 0) + base0) == (lo, hi)
-            ctx.check(ok, "R3", f"{cls}:{attr}:slice", (file, st[-1].line if st else fn.lineno),
-                      f"{attr} are fields {lo}..{hi - 1} of the record", expected=f"fields[{lo}:{hi}]", found=found)
+            if ok is None:
+                ctx.unrec("R3", f"{cls}:{attr}:slice", (file, st[-1].line if st else fn.lineno), f"cannot see which fields of the record the {attr} are read from: {found or 'no store'}")
+            else:
+                ctx.check(ok, "R3", f"{cls}:{attr}:slice", (file, st[-1].line if st else fn.lineno),
+                          f"{attr} are fields {lo}..{hi - 1} of the record", expected=f"fields[{lo}:{hi}]", found=found)
         # numeric fields
         pos = _positions(fl, set(lay["fields"]))
         for attr, (p, conv) in lay["fields"].items():
@@ -404,9 +422,14 @@ def _split_formats(ctx, pkg):
                 ctx.bad("R5", f"{cls}:{attr}", (file, fn.lineno), f"self.{attr} is never assigned from the record")
                 continue
             v, wraps = _unwrap(simp(f.value))
-            k = v[2] if v[0] == "item" and isinstance(v[2], int) else None
+            k = v[2] if v[0] == "item" and isinstance(v[2], int) and v[1] == dv else None
+            if v[0] == "sub" and v[1] == dv and v[2][0] == "const" and isinstance(v[2][1], int):
+                k = v[2][1]                      # the record indexed directly
             if k is not None and k < 0:
                 k = n + k
+            if k is None:
+                ctx.unrec("R5", f"{cls}:{attr}", (file, f.line), f"cannot see which field of the record self.{attr} is read from: {show(v)[:80]}")
+                continue
             ctx.check(k == p and (conv is None or conv in wraps), "R5", f"{cls}:{attr}", (file, f.line),
                       f"self.{attr} = {conv or ''}(field {p})", expected=f"field {p} through {conv}", found=f"field {k} through {wraps}")
 
@@ -429,6 +452,9 @@ def _kida(ctx, pkg):
                 rl = b0["hi"][1]
             if b0 and f.target == "products" and b0["hi"][0] == "binop" and b0["hi"][1] == "Add" and b0["hi"][3][0] == "const":
                 pl = b0["hi"][3][1]
+    if rl is None or pl is None:
+        ctx.unrec("R4", "KIDA:widths", (file, fn.lineno), "cannot see the column blocks the reactants / products are split from (expected line[:RL].split(), line[RL:RL+PL].split())")
+        return
     ctx.check(rl == 3 * 11 + 1 and pl == 5 * 11 + 1, "R4", "KIDA:widths", (file, fn.lineno),
               "reactant block = 3 names of 11 columns + 1, product block = 5 names of 11 columns + 1 (as naunet's own KIDA writer lays them out)",
               expected="rlen = 34, plen = 56", found=f"rlen = {rl}, plen = {pl}")
@@ -437,8 +463,11 @@ def _kida(ctx, pkg):
     # the writer may live in __format__ itself or in a helper it dispatches to: search the class
     wsrc = ast.unparse(pkg.cls("Reaction").node)
     fills = re.findall(r"_fill_list\(\[f'\{(\w+):<11\}' for \1 in \w+\], (\d), \w+\)", wsrc)
-    ctx.check(sorted(n_ for _, n_ in fills) == ["3", "5"], "R4", "KIDA:writer-widths", (R, w.lineno),
-              "the KIDA writer pads 3 reactant and 5 product names to 11 columns each")
+    if not fills:
+        ctx.unrec("R4", "KIDA:writer-widths", (R, w.lineno), "cannot find the KIDA writer's padded name lists (_fill_list([f'{x:<11}' for x in ..], n, ..))")
+    else:
+        ctx.check(sorted(n_ for _, n_ in fills) == ["3", "5"], "R4", "KIDA:writer-widths", (R, w.lineno),
+                  "the KIDA writer pads 3 reactant and 5 product names to 11 columns each", found=str(fills))
     RL, PL = ("const", rl), ("const", pl)
     want = {
         "reactants": ("slice", ("const", None), RL, ("const", None)),
@@ -454,6 +483,9 @@ def _kida(ctx, pkg):
                 base = m[2]
                 found = show(base)[:90]
                 ok = base == ("meth", ("sub", line, sl), "split", (), ())
+        if not found:
+            ctx.unrec("R4", f"KIDA:{attr}:columns", (file, st[-1].line if st else fn.lineno), f"the {attr} are not built by a comprehension over a slice of the line")
+            continue
         ctx.check(ok, "R4", f"KIDA:{attr}:columns", (file, st[-1].line if st else fn.lineno),
                   f"{attr} are the blank-separated names in columns {'1-34' if attr == 'reactants' else '35-90'}", found=found)
     tail = ("meth", ("sub", line, ("slice", ("binop", "Add", RL, PL), ("const", None), ("const", None))), "split", (), ())
@@ -464,7 +496,12 @@ def _kida(ctx, pkg):
             ctx.bad("R5", f"KIDA:{attr}", (file, fn.lineno), f"self.{attr} is never assigned from the record")
             continue
         v, wraps = _unwrap(simp(f.value))
-        ok = v[0] == "item" and v[1] == tail and v[2] == p and conv in wraps
+        if v[0] == "sub" and v[2][0] == "const" and isinstance(v[2][1], int):
+            v = ("item", v[1], v[2][1])          # the token list indexed directly
+        if v[0] != "item" or not isinstance(v[2], int) or not any(isinstance(x, tuple) and len(x) == 5 and x[0] == "meth" and x[2] == "split" for x in walk(v[1])):
+            ctx.unrec("R5", f"KIDA:{attr}", (file, f.line), f"cannot see which token of the record self.{attr} is read from: {show(v)[:80]}")
+            continue
+        ok = v[1] == tail and v[2] in (p, p - 13) and conv in wraps
         ctx.check(ok, "R5", f"KIDA:{attr}", (file, f.line), f"self.{attr} = {conv}(token {p} of the text after column 90)",
                   expected=f"{conv}(line[90:].split()[{p}])", found=show(simp(f.value))[:100])
     dest = [a for a, v in _destructurings(fn, fl, 6) if v == tail]
@@ -707,9 +744,29 @@ def _r6(ctx, rm, pkg):
     ctx.floor("R6", "code table entries", n, 44)
     # UCLCHEM: unmarked reactions default to two-body
     fn = pkg.method("UCLCHEMReaction", "_parse_string")
-    src = ast.unparse(fn)
-    ctx.check(re.search(r"self\.reactant2type\.get\(\w+\[1\], self\.ReactionType\.UCLCHEM_MA\)", src) is not None, "R6", "UCLCHEM:default type", ("naunet/reactions/uclchemreaction.py", fn.lineno),
-              "the marker is the second token; records without a marker are two-body reactions")
+    UCF = "naunet/reactions/uclchemreaction.py"
+    fl = Flow(fn, UCF)
+    st = [f for f in fl.facts if f.kind == "attrstore" and f.target == "reaction_type" and f.extra.get("obj") == SELF]
+    v = simp(st[0].value) if st else None
+    tab = v[1] if v is not None and v[0] == "meth" and v[2] == "get" and len(v[3]) == 2 and not v[4] else None
+    if len(st) != 1 or tab != ("attr", SELF, "reactant2type"):
+        ctx.unrec("R6", "UCLCHEM:default type", (UCF, fn.lineno), "the reaction type is not looked up as self.reactant2type.get(<marker token>, <default>)")
+    else:
+        tok, dflt = v[3]
+        # the marker is the second token of the record: item 1 of the split line, or element 1 of its starred head
+        pos = None
+        if tok[0] == "sub" and tok[2][0] == "const" and isinstance(tok[2][1], int) and tok[1][0] == "item" and isinstance(tok[1][2], tuple) and tok[1][2][0] == "star":
+            pos = tok[1][2][1] + tok[2][1] if tok[2][1] >= 0 else None
+        elif tok[0] == "item" and isinstance(tok[2], int) and tok[2] >= 0:
+            pos = tok[2]
+        elif tok[0] == "sub" and tok[2][0] == "const" and isinstance(tok[2][1], int) and tok[2][1] >= 0 and tok[1][0] == "meth" and tok[1][2] == "split":
+            pos = tok[2][1]
+        if pos is None:
+            ctx.unrec("R6", "UCLCHEM:default type", (UCF, st[0].line), f"cannot see which token of the record is the marker: {show(tok)[:80]}")
+        else:
+            ctx.check(pos == 1 and show(dflt).endswith("ReactionType.UCLCHEM_MA"), "R6", "UCLCHEM:default type", (UCF, st[0].line),
+                      "the marker is the second token; records without a marker are two-body reactions", expected="reactant2type.get(<token 1>, ReactionType.UCLCHEM_MA)",
+                      found=f"token {pos}, default {show(dflt)[:60]}")
 
 
 K = "naunet/reactions/kidareaction.py"
